@@ -253,7 +253,11 @@ def assemble(repo, vspec_path, lenient=False, extra_text=""):
                             continue
                         raise LostAnchor("closure %d of %s not found" % (n, f["path"]))
                     c = f["closures"][n]
-                    splices.append((c["start"], c["head_end"] - c["start"], t["text"].strip() + " "))
+                    head = t["text"].strip()
+                    # $1, $2 … stand for the closure's own parameter names (so renaming them does not matter)
+                    for pi, pn in enumerate(c.get("params", []), 1):
+                        head = head.replace("$%d" % pi, pn.replace("mut ", "").strip())
+                    splices.append((c["start"], c["head_end"] - c["start"], head + " "))
                     if not c["body_is_block"]:
                         splices.append((c["body_start"], 0, "{ "))
                         splices.append((c["body_end"], 0, " }"))
